@@ -117,8 +117,10 @@ def render(unc, cfg, a, files, obs=()):
     if a["csv"]:
         cmd.append("--debug-csv-format")
     for o in obs:
-        if o == "L":
+        if o == "L" and "LA" not in obs:        # one -L per command line: the value of a second one is taken for a file name
             cmd += ["-L", "1-9,20-30"]
+        elif o == "LA":
+            cmd += ["-L", "A"]
         elif o == "s":
             cmd.append("-s")
     stdin = None
